@@ -640,6 +640,14 @@ def _esc(name):
     return b"".join(b"\\%03o" % c if (c <= 0x20 or c in (0x3a, 0x5c)) else bytes([c]) for c in name)
 
 
+def _esc2(rng, name):
+    """mostly the canonical escape; sometimes a spelling with more `\\ooo` escapes than needed (any byte may be
+    written as an escape: the grammar and manifestUnescape accept them all, `/` and the leading `.` included)"""
+    if rng.random() >= 0.08:
+        return _esc(name)
+    return b"".join(b"\\%03o" % c if (c <= 0x20 or c in (0x3a, 0x5c) or rng.random() < 0.35) else bytes([c]) for c in name)
+
+
 def _gen_manifest(rng, odd):
     """a manifest text inside the grammar (mostly) and its blocks"""
     blocks_all = []
@@ -663,9 +671,21 @@ def _gen_manifest(rng, odd):
         depth = rng.choice([0, 0, 1, 1, 2])
         dcomps = [_name(rng, odd) for _ in range(depth)]
         if not claim(dcomps, "d") and dcomps:
+            if rng.random() < 0.3:
+                # a marker for a path that is (or lies below) a file: outside "no path is both file and directory";
+                # model and implementation must still agree on what loadManifest does with it
+                lines.append(_esc2(rng, b"/".join([b"."] + dcomps)) + b" " + EMPTY_LOC + b" " + MARKER)
             continue
-        if dcomps and rng.random() < 0.15:
-            lines.append(_esc(b"/".join([b"."] + dcomps)) + b" " + EMPTY_LOC + b" " + MARKER)
+        if dcomps and rng.random() < 0.18:
+            r = rng.random()
+            if r < 0.8:
+                lines.append(_esc2(rng, b"/".join([b"."] + dcomps)) + b" " + EMPTY_LOC + b" " + MARKER)
+            else:
+                # lenient spellings the loader accepts: the marker token behind a real block
+                b = bytes(rng.getrandbits(8) for _ in range(rng.choice([0, 1, 3])))
+                blocks_all.append(b)
+                lines.append(_esc2(rng, b"/".join([b"."] + dcomps)) + b" " +
+                             ("%s+%d" % (hashlib.md5(b).hexdigest(), len(b))).encode() + b" " + MARKER)
             continue
         blocks = []
         for _ in range(rng.choice([1, 1, 2, 3, 4])):
@@ -694,12 +714,14 @@ def _gen_manifest(rng, odd):
             for _ in range(rng.choice([1, 1, 1, 2, 3])):       # a file may be split over several tokens
                 o = rng.randint(0, total)
                 ln = rng.choice([0, rng.randint(0, total - o), total - o])
-                toks.append(b"%d:%d:%s" % (o, ln, _esc(b"/".join(fc))))
+                toks.append(b"%d:%d:%s" % (o, ln, _esc2(rng, b"/".join(fc))))
         if not toks:
             continue
+        if rng.random() < 0.04:
+            toks.append(MARKER)          # the marker token among file tokens (lenient region of the loader)
         rng.shuffle(toks) if rng.random() < 0.3 else None
         blocks_all += blocks
-        lines.append(_esc(b"/".join([b"."] + dcomps)) + b" " + b" ".join(locs) + b" " + b" ".join(toks))
+        lines.append(_esc2(rng, b"/".join([b"."] + dcomps)) + b" " + b" ".join(locs) + b" " + b" ".join(toks))
     text = b"".join(l + b"\n" for l in lines)
     return text, blocks_all
 
